@@ -158,5 +158,133 @@ def uniform_priors_native_harness():
     return hn
 
 
+def mg1_harness():
+    """(native replays run in float32: the shear matrices inside the methods are float32 constants, a double value raises a dtype error)
+    MG1Uniform (a torch.distributions.Uniform subclass over 3 coordinates): log_prob(x) is the batch-of-uniforms log-density of the noise
+    x @ A, one number per coordinate.  ensures: (a) _to_noise is the linear map x -> x A for the matrix A it returns on the unit vectors, with
+    det A == 1 (so the density of x is the density of the noise: change of variables with unit Jacobian, lemma 4f/4g premises);
+    (b) _to_parameters undoes _to_noise; (c) where the noise lies in the half-open box, the coordinates of log_prob are -log(high_i - low_i),
+    so their sum is -log volume (normalised over the sheared box).  validate_args is torch's default: a point outside the support raises
+    (torch's Uniform convention), which the precondition excludes."""
+    B, D = 2, 3
+
+    def noise_terms(px):
+        # the shear stated by the property text: noise = (x0, x1 - x0, x2)
+        return [[px[b, 0], px[b, 1] - px[b, 0], px[b, 2]] for b in range(B)]
+
+    def run(h, ctx):
+        low = h.inp("low", (D,)); high = h.inp("high", (D,))
+        for l, u in zip(P(low), P(high)): ctx.assume(l < u)
+        d = DU.MG1Uniform(low=low, high=high)
+        h.d = d
+        x = h.inp("x", (B, D))
+        nz = noise_terms(P(x))
+        for b in range(B):
+            for i in range(D): ctx.assume(z3.And(nz[b][i] >= P(low)[i], nz[b][i] < P(high)[i]))
+        return d.log_prob(x), d._to_noise(x), d._to_parameters(d._to_noise(x))
+
+    def post(h, ctx, value):
+        from tsv.ops import s_log
+        lp, nz, back = value
+        pl, ph, px = P(h.inputs["low"]), P(h.inputs["high"]), P(h.inputs["x"])
+        p, pn, pb = P(lp), P(nz), P(back)
+        ensure(h, ctx, "C05.mg1.shape", z3.BoolVal(tuple(p.shape) == (B, D) and tuple(pn.shape) == (B, D) and tuple(pb.shape) == (B, D)))
+        # A as the real code gives it on the unit vectors (evaluated natively: the matrices are constants of the methods)
+        from tsv.core import Ctx
+        saved = Ctx.cur; Ctx.cur = None
+        try:
+            A = DU.MG1Uniform._to_noise(None, torch.eye(D, dtype=torch.float64).float()).double()
+            Ainv = DU.MG1Uniform._to_parameters(None, torch.eye(D, dtype=torch.float64).float()).double()
+        finally:
+            Ctx.cur = saved
+        ensure(h, ctx, "C05.mg1.shear-has-unit-determinant", z3.BoolVal(float(torch.det(A)) == 1.0 and float(torch.det(Ainv)) == 1.0 and bool((A @ Ainv == torch.eye(D, dtype=torch.float64)).all())))
+        for b in range(B):
+            for j in range(D):
+                lin = rv(0)
+                for i in range(D): lin = lin + px[b, i] * rv(float(A[i, j]))
+                ensure(h, ctx, "C05.mg1.to_noise-is-the-linear-map", pn[b, j] == lin)
+                ensure(h, ctx, "C05.mg1.to_parameters-undoes-to_noise", pb[b, j] == px[b, j])
+                ensure(h, ctx, "C05.mg1.log_prob-is-minus-log-width-per-coordinate", p[b, j] == -s_log(ph[j] - pl[j]))
+
+    def native_call(h, inp):
+        d = DU.MG1Uniform(low=tt(inp["low"], torch.float32), high=tt(inp["high"], torch.float32))
+        x = tt(inp["x"], torch.float32)
+        return d.log_prob(x), d._to_noise(x), d._to_parameters(d._to_noise(x))
+
+    def native_clauses(h, inp, r):
+        lp, nz, back = r
+        lo, hi, x = tt(inp["low"], torch.float32), tt(inp["high"], torch.float32), tt(inp["x"], torch.float32)
+        want = -torch.log(hi - lo).expand_as(lp)
+        A = torch.tensor([[1.0, -1, 0], [0, 1, 0], [0, 0, 1]], dtype=x.dtype)
+        return {"C05.mg1.log_prob-is-minus-log-width-per-coordinate": bool(torch.allclose(lp, want.to(lp.dtype), atol=1e-5)),
+                "C05.mg1.to_noise-is-the-linear-map": bool(torch.allclose(nz, (x @ A).to(nz.dtype), atol=1e-5)),
+                "C05.mg1.to_parameters-undoes-to_noise": bool(torch.allclose(back, x.to(back.dtype), atol=1e-5)),
+                "C05.mg1.shape": tuple(lp.shape) == (B, D)}
+
+    def sample(h, rng):
+        low = rng.normal(size=(D,)); w = rng.uniform(0.5, 2.0, size=(D,))
+        nz = low + w * rng.uniform(0.1, 0.9, size=(B, D))
+        x = nz.copy(); x[:, 1] = nz[:, 1] + nz[:, 0]
+        return {"low": low, "high": low + w, "x": x}
+    hn = Harness("MG1Uniform_density[]", run, post, native_call=native_call, native_clauses=native_clauses, sample=sample,
+                 functions=[DU.MG1Uniform.log_prob, DU.MG1Uniform._to_noise, DU.MG1Uniform._to_parameters])
+    hn.native_float32 = False
+    return hn
+
+
+def mg1_sample_harness():
+    """MG1Uniform.sample: the noise of a draw (its image under _to_noise) is low + u (high - low) with one fresh u in [0, 1) per coordinate,
+    hence inside the box: samples follow the density that log_prob reports"""
+    n, D = 2, 3
+
+    def run(h, ctx):
+        low = h.inp("low", (D,)); high = h.inp("high", (D,))
+        for l, u in zip(P(low), P(high)): ctx.assume(l < u)
+        d = DU.MG1Uniform(low=low, high=high)
+        s = d.sample((n,))
+        return s, d._to_noise(s)
+
+    def post(h, ctx, value):
+        smp, nz = value
+        pl, ph = P(h.inputs["low"]), P(h.inputs["high"])
+        ps, pn = P(smp), P(nz)
+        ensure(h, ctx, "C05.mg1.sample-shape", z3.BoolVal(tuple(ps.shape) == (n, D) and tuple(pn.shape) == (n, D)))
+        draws = {}
+        for nm, dd in ctx.notes.get("random_draws", []):
+            for t in P(dd).reshape(-1): draws[t.get_id()] = nm
+        from tsv.terms import base_symbols
+        used = set()
+        for j in range(n):
+            for i in range(D):
+                us = [s_ for s_ in base_symbols(z3.simplify(pn[j, i], som=True)) if s_ in draws]   # the shear and its inverse cancel syntactically in sum-of-monomials form
+                ensure(h, ctx, "C05.mg1.sample-noise-uses-one-fresh-draw", z3.BoolVal(len(us) == 1 and us[0] not in used))
+                used.update(us)
+                ensure(h, ctx, "C05.mg1.sample-noise-inside-box", z3.And(pn[j, i] >= pl[i], pn[j, i] < ph[i]))
+                if len(us) == 1:
+                    u = T.sym_by_id(us[0])
+                    ensure(h, ctx, "C05.mg1.sample-noise-is-affine-image-of-uniform-draw", pn[j, i] == pl[i] + u * (ph[i] - pl[i]))
+
+    def native_call(h, inp):
+        torch.manual_seed(0)
+        d = DU.MG1Uniform(low=tt(inp["low"], torch.float32), high=tt(inp["high"], torch.float32))
+        s = d.sample((n,))
+        return s, d._to_noise(s)
+
+    def native_clauses(h, inp, r):
+        smp, nz = r
+        lo, hi = tt(inp["low"], torch.float32), tt(inp["high"], torch.float32)
+        A = torch.tensor([[1.0, -1, 0], [0, 1, 0], [0, 0, 1]], dtype=smp.dtype)
+        z = smp @ A
+        return {"C05.mg1.sample-noise-inside-box": bool(((z >= lo - 1e-6) & (z <= hi + 1e-6)).all()), "C05.mg1.sample-shape": tuple(smp.shape) == (n, D)}
+
+    def sample(h, rng):
+        low = rng.normal(size=(D,)); w = rng.uniform(0.5, 2.0, size=(D,))
+        return {"low": low, "high": low + w}
+    hn = Harness("MG1Uniform_sample[]", run, post, native_call=native_call, native_clauses=native_clauses, sample=sample,
+                 functions=[DU.MG1Uniform.sample, DU.MG1Uniform._to_noise, DU.MG1Uniform._to_parameters])
+    hn.native_float32 = False
+    return hn
+
+
 def boxuniform_harnesses(tier):
-    return [uniform_priors_native_harness(), boxuniform_harness(1), boxuniform_harness(2), boxuniform_sample_harness(2)] + ([boxuniform_harness(3), boxuniform_sample_harness(1)] if tier != "quick" else [])
+    return [uniform_priors_native_harness(), boxuniform_harness(1), boxuniform_harness(2), boxuniform_sample_harness(2), mg1_harness(), mg1_sample_harness()] + ([boxuniform_harness(3), boxuniform_sample_harness(1)] if tier != "quick" else [])
